@@ -53,6 +53,11 @@ def run (t : Tier) : Emit Unit := do
     let spec := tablePositions m [0, 0x1000, 0x1001] (·.sectionsEnd)
     emit "C02" (demuxCase bs { view := .tablepos, size := if auto then 0 else 188 } none (some spec) "tables-no-readahead")
 
+  -- PES PIDs at every single-bit distance from the PMT PID: none of them is a table PID
+  for half in [0, 1] do
+    let nbrs := (((List.range 13).map fun k => 0x1000 ^^^ (2 ^ k)).filter fun p => p != 0 && p < 0x1fff).drop (half * 6) |>.take 6
+    let m ← liftGen (genStream { pesPIDs := nbrs, pmtPIDs := [0x1000], dvb := false, unitsPerPID := 2 })
+    emit "C02" (demuxCase m.bytes { view := .perpid } none (some (showPerPID m.expected 0 "eof")) "pes-pids-one-bit-from-the-pmt-pid")
   -- the PAT also lists programme 0 -> network PID 0x10 (as DVB multiplexes do): the NIT on that PID is an SI table like
   -- any other, delivered when its unit ends, not a PMT
   for _ in [0:(if t.quick then 6 else 40)] do
